@@ -51,6 +51,14 @@ CLAIMED = {
    text="Histories are handled by making the pre-state symbolic: (i) every shared numeric cell starts as an arbitrary residue and two runs with independent residues must agree (unit targets of C16); (ii) cache keys: two-call histories with independent symbolic (index, reflected, squashed, origin) on get_face_triangle/get_spherical_triangle with compute functions replaced by argument tokens and the cache list by a symbolic store - the second call must return its own key's value; (iii) f(x) then g(y) for the exported hierarchy functions on independent symbolic cells versus g(y) on the restored cold state, all discovered module-level containers snapshotted; (iv) aliasing: arguments untouched, results fresh, mutating a result does not affect the next call, on every symbolic path; (v) concrete warm-vs-cold API pairs (replay in a fresh process).",
    ref="DESIGN.md §4 C17",
    note="Two-call histories (insert-only key-determined caches need two keys to collide); caches keyed by rendered strings are outside (str of a symbolic int is not modelled); the triangle-constants cache and the float API pairs are concrete differential runs, stated as such."),
+ "C02": dict(
+   text="PARTIAL. Decided: (a) the output-range clause for every cell - the real cell_to_lonlat tail (to_lonlat, authalic.inverse, the longitude wrap) runs on symbolic (theta, phi) ranging over everything to_spherical can return, with sin/cos as contract stubs: longitude in [-180,180], latitude in [-90,90] (real arithmetic, 1e-9 slack; IEEE extremes evaluated concretely); (b) the discrete skeleton segment<->quintant/orientation is a mutual inverse for all 12 faces x 5 (real tables, symbolic segment). The index<->lattice part is C18, the id codec C05. Found the unwrapped-longitude defect (fixed in /repo 6f5ae12).",
+   ref="DESIGN.md §4 C02",
+   note="NOT decided: that lonlat_to_cell(cell_to_lonlat(c)) == c and strict containment of the centre - they need the numeric values of the projection (C13, not applicable); the pole collapse at r>=22 is acos precision. DodecahedronProjection.inverse is replaced by its range contract."),
+ "C12": dict(
+   text="PARTIAL. Ring structure under every option combination: closed_ring in {omitted,True,False} x segments in {omitted,None,'auto', every integer 1..16} on concrete cells of r in {0,1,2,5,6,7,29} (thorough: all r) at three places, with the projection abstracted by uninterpreted functions with range contracts: vertex count (3 at r=1 else 5)*segments(+1 iff closed), closure, auto rule max(1,2^(6-r)), defaults, one unprojection per edge point, latitudes in range, corners independent of segments, options not mutated; and the real normalize_longitudes on arbitrary symbolic contours (n<=4): same length, fresh list, latitudes untouched, longitudes change by multiples of 360 only, all within 360 of each other.",
+   ref="DESIGN.md §4 C12",
+   note="NOT decided: simplicity, counter-clockwise orientation, no 180-degree jump, span < 180 - geometry of the unprojected values. Cells are concrete (their face-plane vertices are concrete floats), the values of the unprojection are arbitrary within the contracts."),
 }
 NA = {}
 for p in props:
